@@ -868,10 +868,22 @@ class WireWorld:
     # -- oracles -----------------------------------------------------------
     def gate(self, tape, sc, where, channel):
         """second sentence of the statement, on one connection's tape.
+        Demanded: (a) no application message is processed before the server's comparison of the echoed
+        challenge came out true (event ('echo', True), emitted when _p5 assigns response.valid after a
+        valid signature check); (b) with any invalid input - signature of the identification or of the
+        echo tampered or foreign, either leading length field not 4, second length field off by one,
+        echo different from the challenge - no application message is ever processed and the
+        connection is closed.
         Leniencies: (1) only *messages* (objects reaching _process / do / the log handler) count as
         processed - bytes parked in a buffer do not; (2) 'closes the connection' = at least one
-        loseConnection call, their number is not prescribed here; (3) a handshake that is merely
-        incomplete (bytes missing) is not a failed one: nothing is demanded but silence."""
+        loseConnection call (or an exception escaping dataReceived, which makes Twisted drop the
+        connection); how many calls is not prescribed here (the comparison with whole-packet delivery
+        catches a different number); (3) the echo is compared the way the code does, modulo
+        surrounding white space (gpg appends a newline to clear-signed text) - only echoes that differ
+        in a non-blank character are generated as "wrong"; (4) every generated stream is complete, so
+        "handshake still waiting for bytes" never has to be judged; (5) after loseConnection the
+        transport delivers nothing more (Twisted), so "bytes that arrive later" are dropped by the
+        transport model, not by the code under test."""
         kinds = [e[0] for e in tape]
         first_msg = kinds.index('msg') if 'msg' in kinds else None
         verified = None
@@ -879,22 +891,17 @@ class WireWorld:
             if e == ('echo', True):
                 verified = i
                 break
-        if first_msg is not None and (verified is None or first_msg < verified):
-            if not sc_ok(sc):
-                self.violate('failed_handshake_delivered', sc_sig(sc),
-                             f'{channel}: handshake input [{sc_sig(sc)}] {where}: {kinds.count("msg")} application message(s) were '
-                             f'processed although the handshake must fail; events {self.brief(tape)}')
-            else:
-                self.violate('processed_before_verified', channel,
-                             f'{channel}: valid handshake {where}: an application message was processed before the echoed challenge '
-                             f'was verified; events {self.brief(tape)}')
-        if not sc_ok(sc) and first_msg is None and 'lose' not in kinds and 'exception' not in kinds and not self.incomplete(sc):
+        if first_msg is not None and not sc_ok(sc):
+            self.violate('failed_handshake_delivered', sc_sig(sc),
+                         f'{channel}: handshake input [{sc_sig(sc)}] {where}: {kinds.count("msg")} application message(s) were '
+                         f'processed although the handshake must fail; events {self.brief(tape)}')
+        elif first_msg is not None and (verified is None or first_msg < verified):
+            self.violate('processed_before_verified', channel,
+                         f'{channel}: valid handshake {where}: an application message was processed before the echoed challenge '
+                         f'was verified; events {self.brief(tape)}')
+        if not sc_ok(sc) and first_msg is None and 'lose' not in kinds and 'exception' not in kinds:
             self.violate('failed_handshake_not_closed', sc_sig(sc),
                          f'{channel}: handshake input [{sc_sig(sc)}] {where}: the connection was not closed; events {self.brief(tape)}')
-
-    @staticmethod
-    def incomplete(sc):
-        return False
 
     @staticmethod
     def brief(tape):
@@ -909,7 +916,15 @@ class WireWorld:
         return ' '.join(out[:24])
 
     def compare(self, ref, sub, channel, where, items=None, after_close=False):
-        """first sentence: the subject's view equals the whole-message reference's"""
+        """first sentence: the subject's view (see view()) equals that of whole-message delivery of the same bytes
+        to a fresh instance: same objects reaching _process / do / the log handler in the same order, same bytes
+        written back at the same places between them, same loseConnection calls, no exception.
+        Leniencies: (1) the boundaries between consecutive transport.write calls are not compared (a byte stream has
+        none); (2) what the harness itself pushes through Hand.notify / Hand.do is left out; (3) in the SimConn modes
+        the text of the server's challenge is masked (its time stamp is the virtual time of the delivery, which differs
+        between the run and the reference computed afterwards) - its position and the rest are compared; (4) whole-
+        message delivery follows Twisted: after the message that made the server call loseConnection nothing more is
+        delivered; sequences with messages behind such a message are generated only where cfg after_close is set."""
         if ref == sub:
             return True
         mode = 'legacy' if self.legacy else 'tls'
@@ -939,8 +954,10 @@ class WireWorld:
         return False
 
     def check_whole(self, ref, items, channel, sc=None):
-        """whole-message delivery itself yields the messages that were sent (base case of sentence 1).
-        Twisted semantics: nothing after the message that made the server close."""
+        """whole-message delivery itself yields the messages that were sent (the base case sentence 1 takes for
+        granted; without it a bug that breaks both deliveries alike would go unseen).  Objects are compared through
+        the pickle of what pickle.loads makes of the sent bytes.  Twisted semantics: nothing after the message that
+        made the server close; nothing at all behind a handshake that must fail."""
         want = []
         for it in items:
             want.append(canon(pickle.loads(it.raw)) if channel != LOG else canon_record(logging.makeLogRecord(pickle.loads(it.raw))))
@@ -1446,7 +1463,9 @@ class WireWorld:
 
     # ======================================================================
     def run_gpg(self):
-        """FakePGP's verdicts against a real gnupg.GPG with fresh keys, through the real code path"""
+        """FakePGP's verdicts against a real gnupg.GPG with a freshly generated key, through the real code path.
+        trusted home = holds the key pair (signs for the client, verifies for the server); stranger home = empty key
+        ring: a server that does not know the signer, which is what makes a signature 'foreign'."""
         import gnupg
         import dawgie.security as sec
         import dawgie.pl.message as M
@@ -1455,57 +1474,60 @@ class WireWorld:
         d = f'/dev/shm/verif-wire-{os.getpid():07d}'
         shutil.rmtree(d, ignore_errors=True)
         self.dir = d
-        homes = {}
         try:
-            for who in ('trusted', 'foreign'):
-                h = os.path.join(d, who)
-                os.makedirs(h, mode=0o700)
-                g = gnupg.GPG(**{sec.gpgargname: h})
-                key = g.gen_key(g.gen_key_input(key_type='RSA', key_length=1024, name_real=who, name_email=who + '@sim',
-                                                passphrase='1234567890'))
-                if not getattr(key, 'fingerprint', None):
-                    self.probes['gpg_skipped'] += 1
-                    self.op(f'gpg key generation failed: {getattr(key, "status", "?")} {getattr(key, "stderr", "")[-200:]}')
-                    return
-                homes[who] = g
+            try:
+                homes = {}
+                for who in ('trusted', 'stranger'):
+                    h = os.path.join(d, who)
+                    os.makedirs(h, mode=0o700)
+                    homes[who] = gnupg.GPG(**{sec.gpgargname: h})
+                real, stranger = homes['trusted'], homes['stranger']
+                key = real.gen_key(real.gen_key_input(key_type='RSA', key_length=1024, name_real='sim', name_email='sim@sim',
+                                                      passphrase='1234567890'))
+                fp = getattr(key, 'fingerprint', None)
+            except OSError as e:
+                fp, key = None, e
+            if not fp:
+                self.probes['gpg_skipped'] += 1
+                self.op(f'gpg key generation impossible here: {getattr(key, "status", key)!r}')
+                return
             self.probes['gpg_keys_generated'] += 1
-            real, foe = homes['trusted'], homes['foreign']
-            table = {}
-            for kind in SIGS:
-                payload = ' machine: 10.0.1.1\nusername: sim\n'
-                signer = foe if kind == 'foreign' else real
-                s = signer.sign(payload, passphrase='1234567890', clearsign=True).data
-                if not s:
-                    self.probes['gpg_skipped'] += 1
-                    self.op('gpg could not sign')
-                    return
-                if kind == 'tampered':
-                    s = s.replace(b'machine', b'mAchine')
-                v = bool(real.verify(s).valid)
-                f = bool(FakePGP().verify(signed(kind, payload.encode())).valid)
-                table[kind] = (v, f)
+            payload = ' machine: 10.0.1.1\nusername: sim\n'
+            s = real.sign(payload, passphrase='1234567890', clearsign=True).data
+            if not s:
+                self.probes['gpg_skipped'] += 1
+                self.op('gpg could not sign')
+                return
+            table = {
+                'valid': (bool(real.verify(s).valid), bool(FakePGP().verify(signed('valid', payload.encode())).valid)),
+                'tampered': (bool(real.verify(s.replace(b'machine', b'mAchine')).valid),
+                             bool(FakePGP().verify(signed('tampered', payload.encode())).valid)),
+                'foreign': (bool(stranger.verify(s).valid), bool(FakePGP().verify(signed('foreign', payload.encode())).valid)),
+            }
+            for kind, (v, f) in table.items():
                 if v != f:
                     self.violate('gpg_calibration_mismatch', kind, f'gpg says valid={v}, FakePGP says valid={f} for a {kind} signature')
-                if kind == 'valid':
-                    dr = real.decrypt(s).data
-                    df = FakePGP().decrypt(signed(kind, payload.encode())).data
-                    if dr.strip() != df.strip() or dr.strip() != payload.strip().encode():
-                        self.violate('gpg_calibration_mismatch', 'decrypt', f'gpg decrypt gives {dr!r}, FakePGP {df!r}')
-                    # text without final newline: gpg appends one (that is why _p5 compares stripped strings)
-                    s2 = real.sign(b'timestamp: x\nunique id: 0.5', passphrase='1234567890', clearsign=True).data
-                    d2 = real.decrypt(s2).data
-                    f2 = FakePGP().decrypt(signed('valid', b'timestamp: x\nunique id: 0.5')).data
-                    if d2 != f2:
-                        self.violate('gpg_calibration_mismatch', 'decrypt_newline', f'gpg decrypt gives {d2!r}, FakePGP {f2!r}')
+            dr = real.decrypt(s).data
+            df = FakePGP().decrypt(signed('valid', payload.encode())).data
+            if dr.strip() != df.strip() or dr.strip() != payload.strip().encode():
+                self.violate('gpg_calibration_mismatch', 'decrypt', f'gpg decrypt gives {dr!r}, FakePGP {df!r}')
+            # text without final newline: gpg appends one (that is why _p5 compares stripped strings)
+            s2 = real.sign(b'timestamp: x\nunique id: 0.5', passphrase='1234567890', clearsign=True).data
+            d2 = real.decrypt(s2).data
+            f2 = FakePGP().decrypt(signed('valid', b'timestamp: x\nunique id: 0.5')).data
+            if d2 != f2:
+                self.violate('gpg_calibration_mismatch', 'decrypt_newline', f'gpg decrypt gives {d2!r}, FakePGP {f2!r}')
             self.op(f'verdicts (gpg, fake): {table}')
             self.note('gpg-table', sorted(table.items()))
-            # the real handshake code on both sides with real gpg, then with the fake: same outcome
+            # the real handshake code on both sides (security.connect/_send/_recv <-> TwistedWrapper around Hand) with
+            # real gpg, then with the fake: same outcome.  valid always, one invalid kind per run.
+            kinds = ['valid', ('tampered', 'foreign')[self.ch.choose('gen.calkind', 2)]]
             outcomes = {}
             for engine in ('gpg', 'fake'):
-                for kind in SIGS:
+                for kind in kinds:
                     if engine == 'gpg':
-                        sec._PGP = SplitPGP(sign=foe if kind == 'foreign' else real, verify=real,
-                                            mangle=(lambda b: b.replace(b'machine', b'mAchine').replace(b'unique', b'uniqUe')) if kind == 'tampered' else None)
+                        sec._PGP = SplitPGP(sign=real, verify=stranger if kind == 'foreign' else real,
+                                            mangle=(lambda b: b.replace(b'machine', b'mAchine')) if kind == 'tampered' else None)
                     else:
                         p = FakePGP(me=b'z' if kind == 'foreign' else b'a')
                         if kind == 'tampered':
@@ -1526,10 +1548,10 @@ class WireWorld:
                     self.sim.run(max_steps=self.sim.steps + 400)
                     recs = self.conns[n0:]
                     tape = recs[0].tape if recs else Tape()
-                    kinds = [e[0] for e in tape]
-                    outcomes[(engine, kind)] = ('delivered' if 'msg' in kinds else 'nothing', 'closed' if 'lose' in kinds else 'open')
+                    evs = [e[0] for e in tape]
+                    outcomes[(engine, kind)] = ('delivered' if 'msg' in evs else 'nothing', 'closed' if 'lose' in evs else 'open')
                     self.op(f'{engine}/{kind}: {outcomes[(engine, kind)]} client={res}')
-            for kind in SIGS:
+            for kind in kinds:
                 a, b = outcomes[('gpg', kind)], outcomes[('fake', kind)]
                 if a != b:
                     self.violate('gpg_calibration_mismatch', 'handshake_' + kind, f'real handshake with gpg: {a}, with FakePGP: {b}')
@@ -1540,10 +1562,13 @@ class WireWorld:
             self.note('gpg-outcomes', sorted(outcomes.items()))
             self.nontrivial = True
         finally:
-            for h in ('trusted', 'foreign'):
+            for h in ('trusted', 'stranger'):
                 p = os.path.join(d, h)
                 if os.path.isdir(p):
-                    subprocess.run(['gpgconf', '--homedir', p, '--kill', 'gpg-agent'], capture_output=True, timeout=20)
+                    try:
+                        subprocess.run(['gpgconf', '--homedir', p, '--kill', 'gpg-agent'], capture_output=True, timeout=20)
+                    except Exception:  # noqa
+                        pass
             shutil.rmtree(d, ignore_errors=True)
 
     # ======================================================================
